@@ -5,7 +5,7 @@ from hypothesis import strategies as st
 
 import pyModeS as pms
 from pyModeS.extra.tcpclient import TcpClient
-from pyModeS.streamer.source import NetSource
+from pyModeS.streamer.source import NetSource, RtlSdrSource
 from vlib import gen
 from vlib.core import Leg, call
 
@@ -256,11 +256,15 @@ def s_net(draw):
         df = {"adsb": draw(st.sampled_from([17, 18])), "commb": draw(st.sampled_from([20, 21])), "otherlong": draw(st.sampled_from([16, 19, 22, 24, 31]))}[kind]
         return "%028X" % ((df << 107) | draw(gen.ubits(107)))
     batches = draw(st.lists(st.lists(st.builds(one), min_size=0, max_size=6), min_size=1, max_size=8))
-    return {"batches": batches, "hc": draw(gen.hexcase)}
+    return {"batches": batches, "hc": draw(gen.hexcase), "source": draw(st.sampled_from(["net", "net", "rtl"]))}
 
 
 def chk_net(case, note):
-    src = NetSource("localhost", 0, "beast")
+    if case.get("source", "net") == "rtl":  # the RTL-SDR source has its own copy of the batching code; built without hardware
+        src = object.__new__(RtlSdrSource)
+        src.reset_local_buffer()
+    else:
+        src = NetSource("localhost", 0, "beast")
     src.stop_flag = _Flag()
     src.raw_pipe_in = _Pipe()
     t = 0
@@ -279,7 +283,7 @@ def chk_net(case, note):
                 fed_c.append((m, t))
         r = call(src.handle_messages, msgs)
         if r[0] != "ok":
-            return "NetSource.handle_messages(%r) raised %r" % (msgs, r[1:])
+            return "%s.handle_messages(%r) raised %r" % (type(src).__name__, msgs, r[1:])
         out_a, out_c = [], []
         for s in src.raw_pipe_in.sent:
             if len(s["adsb_ts"]) != len(s["adsb_msg"]) or len(s["commb_ts"]) != len(s["commb_msg"]):
@@ -292,6 +296,7 @@ def chk_net(case, note):
             return "after batches %r: forwarded+buffered ADS-B %r / Comm-B %r, handed in %r / %r" % (batches, out_a, out_c, fed_a, fed_c)
     if src.local_buffer_adsb_msg or src.local_buffer_commb_msg:
         return "after a final batch with two ADS-B messages %r / %r remain buffered" % (src.local_buffer_adsb_msg, src.local_buffer_commb_msg)
+    note.cls(type(src).__name__)
     note.nt(len(fed_a) > 2 and len(fed_c) > 0)
     return None
 
